@@ -211,7 +211,7 @@ def run(ctx):
     r2 = ctx.rule("C03.R2", "CMP: thresholds in alpha are the published ones and agree fast<->slow; outer positive regime depends on up-side data only, outer negative regime on down-side data only", "CMP", floor=10)
     r3 = ctx.rule("C03.R3", "FILL (deviant belief): no element-wise `x +/- <attribute that is provably all zeros>` in __call__ (the author believed the operand was something else)", "FILL", floor=5)
     r5 = ctx.rule("C03.R5", "ALG: polynomial identities per region: fast == slow; neutral at alpha=0; up variation at +1, down at -1; continuity at every threshold (and of first and second formal derivative for codes 4, 4p); extrapolation uses the matching side", "ALG", floor=40)
-    r7 = ctx.rule("C03.R7", "AXES/HISTORY: each vectorised code interpreted END TO END on a 2 systematics x 2 samples x 3 variations x 2 bins histogram set (list tensors): every cell (systematic, sample, alpha column, bin) of the result equals the scalar reference function of the same file applied to that cell's (down, nominal, up) and that systematic's alpha -- for alpha sets mixing all regimes and the breakpoints, and again after calls with other alpha-set shapes on the SAME interpolator", "AXES", floor=10)
+    r7 = ctx.rule("C03.R7", "AXES/HISTORY: each vectorised code interpreted END TO END on a 2 systematics x 2 samples x 3 variations x 2 bins histogram set (list tensors): every cell (systematic, sample, alpha column, bin) of the result equals the scalar reference function of the same file applied to that cell's (down, nominal, up) and that systematic's alpha -- for alpha sets mixing all regimes and the breakpoints, and again after calls with other alpha-set shapes on the SAME interpolator", "AXES", floor=15)
     _axes_and_history(ctx, r7, repo, prs)
     r4 = ctx.rule("C03.R4", "FOLD: each A_inverse literal times the defining matrix (rows f(a0), f(-a0), f'(a0), f'(-a0), f''(a0), f''(-a0) of sum a_i alpha^i) is the identity, symbolically in alpha0; rhs vector is [u^a0-1, d^a0-1, ln u u^a0, -ln d d^a0, ln^2 u u^a0, ln^2 d d^a0]", "FOLD", floor=2)
 
@@ -701,7 +701,8 @@ def _axes_and_history(ctx, rid, repo, prs):
         ("mixed regimes", [[F_(1, 2), F_(-3, 2)], [F_(5, 2), F_(-1, 3)]]),
         ("one column", [[F_(-7, 2)], [F_(3, 4)]]),
         ("three columns with breakpoints", [[F_(1), F_(0), F_(-1)], [F_(-1), F_(2), F_(0)]]),
-        ("mixed regimes again (after other shapes)", [[F_(-5, 4), F_(3, 2)], [F_(1, 4), F_(-9, 2)]]),
+        ("mixed regimes again (after other shapes and a backend refresh)", [[F_(-5, 4), F_(3, 2)], [F_(1, 4), F_(-9, 2)]]),
+        ("one column again", [[F_(2)], [F_(-2)]]),
     ]
     for code, fast, slow, _node in sorted(prs, key=lambda t: str(t[0])):
         ext = listnp.externals()
@@ -731,6 +732,11 @@ def _axes_and_history(ctx, rid, repo, prs):
             pinned = {n: region[n] for row in names for n in row}
             site = f"{fast.relpath}::{fast.name}.__call__ [{lab}]"
             try:
+                if ci == 3:
+                    # a backend switch between calls re-runs every subscribed refresh method: what it rebuilds must
+                    # stay consistent with what the shape-change hook rebuilds
+                    for rm in refreshers(fast):
+                        w.call_method(inst, rm, [])
                 out = w.call_method(inst, "__call__", [listnp.T([[at(n) for n in row] for row in names])])
                 shp = listnp._shape(out)
                 if shp != (2, 2, len(rows[0]), 2):
